@@ -109,8 +109,12 @@ Qed.
 
 (* ------------------------------------------------------------------ the collector's output is such a reading *)
 
-(* no character of the input is a name character and white space at once (excludes U+1680, U+180E, U+FEFF) *)
+(* no character of the input is a name character and white space at once (before the repair this excluded U+1680, U+180E, U+FEFF) *)
 Definition unambiguous (inp : str) : Prop := Forall (fun c => is_name_part c = true -> is_ws c = false) inp.
+
+(* since the repair of is_name_start_char every input is *)
+Lemma unambiguous_all : forall inp, unambiguous inp.
+Proof. intro inp. unfold unambiguous. rewrite Forall_forall. intros c _. apply name_part_not_ws. Qed.
 
 Lemma Forall_weave : forall (P : N -> Prop) gs ps, length gs = length ps -> Forall P (weave gs ps) ->
   Forall (Forall P) gs /\ Forall (Forall P) ps.
@@ -280,9 +284,12 @@ Proof.
   intros _. reflexivity.
 Qed.
 
-(* the three code points that are white space and name characters at once: directly after a name character they are read as part of
-   the word (one part `a<U+1680>b`), after a blank they are skipped as white space (parts `a`, `b`) *)
+(* the three code points that were white space and name characters at once: with the original character classes they were read as part
+   of the word directly after a name character (one part `a<U+1680>b`) and skipped as white space after a blank (parts `a`, `b`); now
+   they are white space in both places *)
 Lemma overlap_reading_witness :
-  collect [97; 5760; 98]%N 0 = ([[97; 5760; 98]%N], [2], 3) /\
+  collect_orig [97; 5760; 98]%N 0 = ([[97; 5760; 98]%N], [2], 3) /\
+  collect_orig [97; 32; 5760; 98]%N 0 = ([[97%N]; [98%N]], [0; 3], 4) /\
+  collect [97; 5760; 98]%N 0 = ([[97%N]; [98%N]], [0; 2], 3) /\
   collect [97; 32; 5760; 98]%N 0 = ([[97%N]; [98%N]], [0; 3], 4).
-Proof. split; vm_compute; reflexivity. Qed.
+Proof. repeat split; vm_compute; reflexivity. Qed.
